@@ -13,8 +13,10 @@ import (
 	"errors"
 	"fmt"
 	"github.com/hashicorp/go-kms-wrapping/v2/extras/multi"
+	"google.golang.org/protobuf/types/known/timestamppb"
 	"sort"
 	"strings"
+	"time"
 
 	wrapping "github.com/hashicorp/go-kms-wrapping/v2"
 	"github.com/hashicorp/nodeenrollment"
@@ -433,7 +435,19 @@ func (w *world) audit(where string, stores []*harness.MemStore, plains []proto.M
 			secrets = append(secrets, secretsOf(p)...)
 		}
 		for _, op := range log {
-			if op.Call != "Store" || op.Err != "" {
+			if (op.Call != "Store" && op.Call != "Remove") || op.Err != "" {
+				continue
+			}
+			if op.Call == "Remove" {
+				// a message handed to Remove reaches the storage implementation as well
+				for _, s := range secrets {
+					if s.What == "token creation time" && op.Kind != "token" {
+						continue
+					}
+					if len(s.Bytes) >= 8 && bytes.Contains(op.Bytes, s.Bytes) {
+						out = append(out, finding{fmt.Sprintf("clear-in-remove:%s:%s", op.Kind, strings.ReplaceAll(s.What, " ", "-")), fmt.Sprintf("%s: the message handed to Storage.Remove for %s/%s contains the %s in clear", where, op.Kind, op.Id, s.What)})
+					}
+				}
 				continue
 			}
 			for _, s := range secrets {
@@ -506,6 +520,25 @@ func (w *world) runDirect(name string, m proto.Message, r *engine.Report) []find
 			out = append(out, finding{"round-trip-differs:" + op.Kind, "direct:" + name + ": loading with the same wrapper does not return what was stored"})
 		} else {
 			r.Branch("round-trip")
+		}
+	}
+	// a token record that is loaded, changed and stored again: the second
+	// store seals what the record holds now, not what it held at the first
+	if tk, ok := plain.(*types.ServerLedActivationToken); ok {
+		st2 := harness.NewMemStore()
+		first := proto.Clone(tk).(*types.ServerLedActivationToken)
+		if err := first.Store(harness.Ctx, st2, w.opt()); err == nil {
+			if l, err := types.LoadServerLedActivationToken(harness.Ctx, st2, tk.Id, w.opt()); err == nil {
+				later := timestamppb.New(tk.CreationTime.AsTime().Add(time.Hour))
+				l.CreationTime = later
+				if err := l.Store(harness.Ctx, st2, w.opt()); err != nil {
+					out = append(out, finding{"store-fails:second-store", fmt.Sprintf("direct:%s: storing the loaded and changed token again failed: %v", name, err)})
+				} else if l2, err := types.LoadServerLedActivationToken(harness.Ctx, st2, tk.Id, w.opt()); err != nil || !l2.CreationTime.AsTime().Equal(later.AsTime()) {
+					out = append(out, finding{"round-trip-differs:token:second-store", fmt.Sprintf("direct:%s: a token loaded, given a new creation time and stored again loads with the old sealed time (%v)", name, err)})
+				} else {
+					r.Branch("token-second-store")
+				}
+			}
 		}
 	}
 	// the same record through a pooled wrapper whose encrypting key is rotated
@@ -698,7 +731,7 @@ func (w *world) runSetLoader(r *engine.Report) []finding {
 }
 
 func run(c *engine.Ctx, r *engine.Report) {
-	r.Need("audited:roots", "audited:nodeinfo", "audited:nodecreds", "audited:token", "round-trip", "transplant-rejected", "wrapper-fault-audited", "set-loader-audited", "round-trip-after-key-rotation")
+	r.Need("audited:roots", "audited:nodeinfo", "audited:nodecreds", "audited:token", "round-trip", "transplant-rejected", "wrapper-fault-audited", "set-loader-audited", "round-trip-after-key-rotation", "token-second-store")
 	w := newWorld(c.Seed)
 	report := func(k kase, fs []finding) {
 		seen := map[string]bool{}
@@ -786,7 +819,7 @@ func init() {
 	engine.Register(&engine.CheckDef{
 		ID:    "C12",
 		Level: "exploration",
-		Rule: "8 writing flows through the real API with a storage wrapper (root rotation + reinit, root rotation and store with an application-state option in the same option list, authorize+fetch+handle, token, wrapper registration, node rotation, previous key on node credentials / node information), every hand-built record over the 16 combinations of optional fields {nonce, previous key, state, bundles} for the node types and {state} for roots and tokens (each also stored and loaded through a pooled wrapper whose encrypting key is rotated in between), every transplant of a sealed field (alone, and together with the record's own id field) between two records of the same type, the node-id set loader over a set that mixes a record written without and one written with the wrapper in both lookup orders, and every flow again with the wrapper failing at each of its operations in turn (whatever reached storage must still satisfy the property); the harness store records the exact bytes handed to Storage.Store; secrets are learnt by unwrapping those bytes with the same wrapper; " +
+		Rule: "8 writing flows through the real API with a storage wrapper (root rotation + reinit, root rotation and store with an application-state option in the same option list, authorize+fetch+handle, token, wrapper registration, node rotation, previous key on node credentials / node information), every hand-built record over the 16 combinations of optional fields {nonce, previous key, state, bundles} for the node types and {state} for roots and tokens (each also stored and loaded through a pooled wrapper whose encrypting key is rotated in between), every transplant of a sealed field (alone, and together with the record's own id field) between two records of the same type, the node-id set loader over a set that mixes a record written without and one written with the wrapper in both lookup orders, and every flow again with the wrapper failing at each of its operations in turn (whatever reached storage must still satisfy the property); the harness store records the exact bytes handed to Storage.Store and to Storage.Remove; secrets are learnt by unwrapping those bytes with the same wrapper; " +
 			"distinct_nontrivial counts scenarios / records / transplant groups (distinct by construction) that were audited without a finding",
 		Assumptions: []string{"a secret is searched as a byte substring (PKCS8 form, raw Ed25519 seed, raw X25519 scalar, nonce, marshaled timestamp with a nanosecond part); secrets shorter than 8 bytes are not searched"},
 		Run:         run,
